@@ -638,6 +638,22 @@ func c02Index(c *Ctx, p *Prog, fn *ssa.Function, parsers []*parserInfo) {
 				}
 			}
 		}
+		// a window of constant length cut out of the input: x = y[lo : lo+n] with n > k, the cut itself
+		// made where len(y) >= lo+n is known
+		if !okG {
+			if sl, isSl := x.(*ssa.Slice); isSl && sl.Low != nil && sl.High != nil {
+				lb, lo := linBase(sl.Low)
+				hb, hi := linBase(sl.High)
+				if lb == hb && hi-lo > k && lo >= 0 {
+					ly := "len(" + valName(sl.X) + ")"
+					for _, a := range guardsAt(sl.Block()) {
+						if (a.L == ly && a.Op == ">=" && a.R == valName(sl.High)) || (a.R == ly && a.Op == "<=" && a.L == valName(sl.High)) {
+							okG, why = true, fmt.Sprintf("a window of %d bytes cut where %s >= %s is known", hi-lo, ly, valName(sl.High))
+						}
+					}
+				}
+			}
+		}
 		// guard at every caller: the callers return on an empty buffer before calling
 		if !okG && k == 0 {
 			if call, ok := x.(*ssa.Call); ok && calleeName(&call.Call) == "(*bytes.Buffer).Bytes" {
